@@ -414,7 +414,10 @@ def declared(case):
 
 def _dump_test(t):
     d = t.disabled
-    return {"name": t.name, "desc": t.description, "rank": t.rank, "tags": list(t.tags),
+    # the rank of a variant of a parametrized test is `md.rank + idx / (idx + 1)` since fix N5: C13's model speaks of the
+    # declaration's rank (its integer part); the order of the variants is their order in the tree (compared as such), the
+    # fractional part is modelled by Model/Expand.lean (C01 / C05)
+    return {"name": t.name, "desc": t.description, "rank": int(t.rank // 1), "tags": list(t.tags),
             "props": sorted([k, v] for k, v in t.properties.items()), "links": [[u, n] for u, n in t.links],
             "disabled": d if isinstance(d, (bool, str)) else repr(d),
             "params": sorted([k, v] for k, v in t.parameters.items()), "path": [n.name for n in t.hierarchy]}
